@@ -79,6 +79,14 @@ func runC04(c *Ctx) {
 		for _, st := range c.CallsInl(fn.SSA, l.callee, d) {
 			sites = append(sites, st.CallSite)
 		}
+		if len(sites) == 0 && !l.direct {
+			// the link may sit in a callback the function installs as a named function or method value
+			for _, vf := range valueFuncs(fn.SSA) {
+				for _, st := range c.CallsInl(vf, l.callee, 1) {
+					sites = append(sites, st.CallSite)
+				}
+			}
+		}
 		if len(sites) == 0 {
 			c.Unk("C04.E1-error-chain", key0, fn.SSA.Pos(), "link of the error chain not found (callee no longer called here)")
 			continue
